@@ -420,6 +420,10 @@ def run(ctx):
     nbase = (300, 150) if quick else (2000, 2000)
     sysbase = relgen.systematic_cases(2 if quick else 3, SAFE, seed=66, kinds=["select", "derive", "filter", "sort", "take", "aggregate", "group_agg", "group_take", "join", "window"])
     sysbase += relgen.inherited_order_cases(SAFE, variants=2 if quick else 4)
+    # filters of the form A && (B || C): the filter-split rewrite leaves a filter with a top-level `||` next to another filter in one clause
+    # (the same family in both tiers)
+    sysbase += [c_ for c_ in relgen.systematic_cases(2, dict(SAFE, disj_filters=True), seed=67, variants=2,
+                                                     kinds=["filter", "select", "derive", "sort", "take", "group_agg", "join"]) if "filter" in c_.seq]
     # programs with let-tables (for the module / renaming rewrites): prefix named by a let at every cut, plus generated programs with
     # one or two let-tables whose main pipeline joins / appends base tables
     letrng = random.Random(6262)
